@@ -502,6 +502,10 @@ class MCNP_Problem:
 
         for warning_message in warning_queue:
             warning = warning_message.message
+            if not getattr(warning_message, "handled", None):
+                # not attributed to an input of the file: pass it on as it is
+                warnings.warn(warning, stacklevel=3)
+                continue
             message = f"The input starting on Line {warning_message.lineno} of: {warning_message.path} expanded. "
             if warning_level == WarningLevels.SUPRESS:
                 continue
